@@ -613,3 +613,77 @@ Section CoverRatio34.
         destruct (fst cur + valueof y <? C) eqn:E2; lia.
       + apply unsnoc_None in U. apply (Base cur small); [exact E|exact Hs|right; exact U].
   Qed.
+
+  (** ---- the one-off allowance for a bin opened by an unbalanced medium pair ---- *)
+  Definition onramp (C D : Z) (y : A) : bool := 3 * (C - 2 * valueof y) <=? D.
+  Definition Bud (C D : Z) (medium : list A) : Z :=
+    if existsb (onramp C D) medium then 6 * D else 0.
+
+  Lemma Bud_bounds C D medium : 0 < D -> 0 <= Bud C D medium <= 6 * D.
+  Proof. intros HD. unfold Bud. destruct (existsb (onramp C D) medium); lia. Qed.
+
+  Lemma Bud_in C D medium y : In y medium -> 3 * (C - 2 * valueof y) <= D ->
+    Bud C D medium = 6 * D.
+  Proof.
+    intros Hin Hy. unfold Bud.
+    assert (H : existsb (onramp C D) medium = true).
+    { apply existsb_exists. exists y. split; [exact Hin|]. unfold onramp. lia. }
+    rewrite H. reflexivity.
+  Qed.
+
+  Lemma Bud_none C D medium : Forall (fun y => D < 3 * (C - 2 * valueof y)) medium ->
+    Bud C D medium = 0.
+  Proof.
+    intros H. unfold Bud. destruct (existsb (onramp C D) medium) eqn:E; [|reflexivity].
+    apply existsb_exists in E. destruct E as (y & Hin & Hy). rewrite Forall_forall in H.
+    specialize (H y Hin). unfold onramp in Hy. lia.
+  Qed.
+
+  Lemma Bud_incl C D m1 m2 : 0 < D -> incl m1 m2 -> Bud C D m1 <= Bud C D m2.
+  Proof.
+    intros HD Hi. unfold Bud at 1. destruct (existsb (onramp C D) m1) eqn:E.
+    - apply existsb_exists in E. destruct E as (y & Hin & Hy). unfold onramp in Hy.
+      rewrite (Bud_in C D m2 y); [lia|apply Hi; exact Hin|lia].
+    - pose proof (Bud_bounds C D m2 HD). lia.
+  Qed.
+
+  (** sorted lists: everything is below the head; the tail is below half the top pair *)
+  Lemma head_ge (l : list A) x : desc l -> In x l ->
+    valueof x <= zsum (map valueof (firstn 1 l)).
+  Proof.
+    intros Hs Hin. destruct l as [|h t]; [destruct Hin|].
+    cbn [firstn map]. rewrite zsum_cons4. change (zsum []) with 0.
+    inversion Hs as [|h0 t0 _ Hht]; subst h0 t0. destruct Hin as [<-|Hin]; [lia|].
+    rewrite Forall_forall in Hht. specialize (Hht x Hin). cbv beta in Hht. lia.
+  Qed.
+
+  Lemma tl_le_pair (l : list A) y : desc l -> In y (tl l) ->
+    2 * valueof y <= zsum (map valueof (firstn 2 l)).
+  Proof.
+    intros Hs Hin. destruct l as [|m1 [|m2 rest]]; [destruct Hin|destruct Hin|].
+    cbn [tl] in Hin. cbn [firstn map]. rewrite !zsum_cons4. change (zsum []) with 0.
+    inversion Hs as [|h0 t0 Hs2 Hm1]; subst h0 t0.
+    inversion Hs2 as [|h0 t0 _ Hm2]; subst h0 t0.
+    rewrite Forall_forall in Hm1, Hm2.
+    pose proof (Hm1 m2 (or_introl eq_refl)) as H12. cbv beta in H12.
+    destruct Hin as [<-|Hin]; [lia|]. specialize (Hm2 y Hin). cbv beta in Hm2. lia.
+  Qed.
+
+  (** ---- a bin of the main loop opened by the largest big item ---- *)
+  Lemma binX C D x0 big' medium used : 0 < C -> Dok C big' medium D ->
+    bigp C x0 -> Forall (fun x => valueof x <= valueof x0) big' ->
+    desc medium -> Forall (medp C) medium ->
+    zsum (map valueof (firstn 2 medium)) <= valueof x0 ->
+    wsum4 C D used <= room C D (valueof x0) ->
+    3 * wsum4 C D (x0 :: used) <= 24 * D.
+  Proof.
+    intros HC (HD & HDC & Hcase) Hx0 Hle Hsm Hm Hcmp Hused. unfold bigp in Hx0.
+    assert (Hgap : D = C \/ 3 * (C - valueof x0) <= D).
+    { destruct Hcase as [H|[(x & Hin & HxC & H)|(y & Hin & H)]]; [left; exact H|right|right].
+      - rewrite Forall_forall in Hle. specialize (Hle x Hin). cbv beta in Hle. lia.
+      - pose proof (tl_le_pair medium y Hsm Hin) as Hy.
+        apply Forall_tl in Hm. rewrite Forall_forall in Hm. destruct (Hm y Hin) as [_ Hy2]. lia. }
+    rewrite wsum4_cons. unfold room in Hused. destruct (valueof x0 <? C) eqn:E.
+    - pose proof (Wx_open C D (valueof x0) HD HDC Hx0 ltac:(lia) Hgap). lia.
+    - pose proof (Wx_le C D (valueof x0) HD HDC ltac:(lia)). lia.
+  Qed.
